@@ -1,11 +1,18 @@
 pub mod c01;
 pub mod common;
+pub mod hist;
+pub mod histchecks;
+pub mod monitors;
 
 use crate::report::Check;
 
 pub fn by_id(id: &str) -> Option<Box<dyn Check>> {
     match id {
         "C01" => Some(Box::new(c01::C01)),
+        "C02" => Some(Box::new(histchecks::HistCheck { prop: "C02" })),
+        "C03" => Some(Box::new(histchecks::HistCheck { prop: "C03" })),
+        "C05" => Some(Box::new(histchecks::HistCheck { prop: "C05" })),
+        "C08" => Some(Box::new(histchecks::HistCheck { prop: "C08" })),
         _ => None,
     }
 }
